@@ -119,7 +119,7 @@ def REQUIRED(tier):
         "mirror.centres-judged": 80, "mirror.fragments-with-marks": 20,
         "handedness.absolute-judged": 100,
         "variant.permute.compared": 100, "variant.translate.compared": 100, "variant.renumber.compared": 100,
-        "variant.reorder.compared": 100, "variant.lone-atoms.compared": 50,
+        "variant.reorder.compared": 100, "variant.lone-atoms.compared": 50, "variant.group-several.compared": 50,
         "determinism.same-object": 100, "determinism.same-object-after-edit": 100, "determinism.cold-object": 100, "determinism.reseeded": 100,
         "determinism.fresh-process": 100,
         "reach.3dify.ring": 20, "reach.3dify.acyclic": 20, "reach.3dify.bold-hash": 5, "reach.nested-join": 20,
@@ -188,7 +188,9 @@ def plan(tier, seed):
             + [[["reorder"], 0], [["reorder"], 1], [["reorder", "mirror"], 2],
                [["reorder", "permute", "translate", "renumber:shuffle"], 3]]
             # fragments without bonds (lone ions) elsewhere on the page: every label still names its own fragment
-            + [[["lone-atoms"], 0], [["lone-atoms", "permute"], 1]])
+            + [[["lone-atoms"], 0], [["lone-atoms", "permute"], 1]]
+            # several drawings and labels put into one group: labels keep naming the fragment they stand under
+            + [[["group-several"], 0], [["group-several"], 1], [["group-several", "translate"], 2]])
         add(f, [[["renumber:" + st], 0] for st in styles] + [[["translate@" + w], 0] for w in WITNESS_TRANSLATIONS])
         if f in sweep:
             # translation sweep over the fragments that bend a substituent inside an already bent part: there the
@@ -242,6 +244,9 @@ def observe(m, ml):
     bt = ml.BondType
     names = {int(bt.Single): "1", int(bt.Double): "2", int(bt.Triple): "3", int(bt.Aromatic): "1.5",
              int(bt.Ligand): "L"}
+    for nm, tok in (("Quadruple", "4"), ("Quintuple", "5"), ("Sextuple", "6")):
+        if hasattr(bt, nm):
+            names[int(getattr(bt, nm))] = tok
     edges = {}
     parallel = 0
     for b in m.bonds:
@@ -469,6 +474,9 @@ def build_variant(text, steps, vseed, ctx_rng):
             info["permuted"] = True
         elif step == "lone-atoms":
             text = R.insert_lone_atoms(text, rng)
+        elif step == "group-several":
+            text = R.group_several(text, rng)
+            info["permuted"] = True          # the document order of what was grouped changes
         elif step == "translate":
             dx = rng.choice([-1, 1]) * rng.randrange(0, 4000) / 4.0
             dy = rng.choice([-1, 1]) * rng.randrange(0, 4000) / 4.0
@@ -1295,7 +1303,7 @@ def check_same_fragment(ctx, np, snap, diff, file, lb, m0, m1, o0, o1, info, vna
         for a0, a1 in zip(s0["atoms"], s1["atoms"]):
             if isinstance(a0["label"], str) and a0["label"] in idmap and a1["label"] == idmap[a0["label"]]:
                 a1["label"] = a0["label"]
-    for k in ("permute", "translate", "renumber", "lone-atoms", "flip-ends"):
+    for k in ("permute", "translate", "renumber", "lone-atoms", "flip-ends", "group-several"):
         if k in vname:
             ctx.count(f"variant.{k}.compared")
     if vname == "translate" and 1000 <= vseed < 2000:
